@@ -119,6 +119,11 @@ func New(o Opts) (*Server, error) {
 
 	s := &Server{Dir: o.DataDir, Opts: o}
 	options := []func(*sugardb.SugarDB){sugardb.WithConfig(conf)}
+	if o.RealClock {
+		// (Left to itself the server picks a frozen mock clock whenever the name of the executable contains
+		// ".test", which is the case for every check binary: "real clock" has to be asked for explicitly.)
+		options = append(options, sugardb.WithVerifClock(wallClock{}))
+	}
 	if !o.RealClock {
 		s.Clock = o.Clock
 		if s.Clock == nil {
@@ -271,3 +276,9 @@ func (s *Server) WaitAsync() bool { return verifhook.WaitAsyncIdle(5 * time.Seco
 
 // RemoveDir deletes the data directory.
 func (s *Server) RemoveDir() { _ = os.RemoveAll(s.Dir) }
+
+// wallClock follows the system clock.
+type wallClock struct{}
+
+func (wallClock) Now() time.Time                         { return time.Now() }
+func (wallClock) After(d time.Duration) <-chan time.Time { return time.After(d) }
